@@ -323,6 +323,7 @@ Eval(P, e, env, st) ==
       [] e.k = "new" -> EvalK13(P, e, env, st)
       [] e.k = "call" -> EvalK14(P, e, env, st)
       [] e.k = "lvr" -> EvalK15(P, e, env, st)
+      [] e.k = "wenn" -> Eval(P, IF e.val THEN e.c ELSE [k |-> "un", op |-> "not", r |-> e.c], env, st)      \* wahr, wenn c  ==  c ;  falsch, wenn c  ==  nicht c
       [] e.k = "chain" -> Eval(P, Tree(e.items), env, st)      \* an unparenthesised operator chain means its precedence tree
 
 (* reference denoted by an assignable: [ref, st]; an out-of-range index is a Laufzeitfehler *)
@@ -557,6 +558,7 @@ Exec(P, s, env, st) ==
       [] s.k = "todo" -> ExecK14(P, s, env, st)
       [] s.k = "block" -> ExecK15(P, s, env, st)
       [] s.k = "cset" -> ExecK16(P, s, env, st)
+      [] s.k = "setis" -> ExecK2(P, s, env, st)          \* x ist <Literal>.  /  b ist wahr, wenn c.   - another spelling of the assignment
 
 (* the whole program: [out, sig]  sig = "ok" (exit 0) | "rterr" (Laufzeitfehler, exit 1) | "unspec" *)
 Run(P, fuel) ==
